@@ -26,6 +26,10 @@ What is trusted here (and validated by execution on every check run, see props/C
   * the truth value of a number is `x ≠ 0`; < <= > >= == != are the order / equality relations;
   * `/` by zero raises ZeroDivisionError (recorded per path as the `status` of a call; in the
     generic definitions `x / 0 = 0` as in any Lean field — theorems carry explicit hypotheses);
+  * every translated function is PURE - checked, not assumed: harness/math_purity.py audits the
+    source of every function that ran during the trace (module-level / class-level state written by
+    some function, attributes written on arguments, memoising decorators, closures); an impure
+    function breaks the translation obligation of every API entry that reaches it;
   * a failed `assert` is a precondition (pruned from the value, kept in the executable status);
   * the shim: math.sqrt ↦ Real.sqrt, sin/cos/tan ↦ Real.sin/cos/tan, atan2 y x ↦ Complex.arg(x+iy),
     radians x ↦ x·(π/180), pi ↦ Real.pi.
@@ -43,7 +47,7 @@ VERIF = pathlib.Path(__file__).resolve().parent.parent
 if str(VERIF) not in sys.path:
     sys.path.insert(0, str(VERIF))
 
-from harness import math_api  # noqa: E402
+from harness import math_api, math_purity  # noqa: E402
 from harness.math_api import API, KIND_LEN, fields  # noqa: E402
 
 GEN_PATH = VERIF / 'lean' / 'DesperProofs' / 'Generated' / 'MathGen.lean'
@@ -610,6 +614,8 @@ class Fn:
         self.error = None           # reason when untranslatable
         self.kind = None
         self.varpos = {}            # variable name -> index among the flat scalar arguments
+        self.reached = set()        # (co_name, co_firstlineno) of the math.py code that ran in the trace
+        self.impure = {}            # qualname -> findings of the purity audit, for the reached functions
         self.is_tr = False
 
     @property
@@ -617,7 +623,33 @@ class Fn:
         return self.entry.params
 
 
+class Reached:
+    """Code objects of the traced module that ran inside the `with` block (sys.setprofile)."""
+
+    def __init__(self, filename):
+        self.filename = filename
+        self.codes = set()
+
+    def __enter__(self):
+        def prof(frame, event, arg):
+            if event == 'call' and frame.f_code.co_filename == self.filename:
+                self.codes.add((frame.f_code.co_name, frame.f_code.co_firstlineno))
+        self._old = sys.getprofile()
+        sys.setprofile(prof)
+        return self
+
+    def __exit__(self, *a):
+        sys.setprofile(self._old)
+
+
 def trace_entry(M, entry):
+    with Reached(M.__file__) as reached:
+        fn = _trace_entry(M, entry)
+    fn.reached = reached.codes
+    return fn
+
+
+def _trace_entry(M, entry):
     fn = Fn(entry)
     args = []
     for pname, kind in entry.params:
@@ -827,9 +859,17 @@ class Swizzle:
         self.lens = []           # (length, kind)
         self.observed = {}       # attrs -> ('raised', name) | (kind, [nodes])
         self.mismatches = 0
+        self.reached, self.impure = set(), {}
 
 
 def trace_swizzle(M, cls_name):
+    with Reached(M.__file__) as reached:
+        sw = _trace_swizzle(M, cls_name)
+    sw.reached = reached.codes
+    return sw
+
+
+def _trace_swizzle(M, cls_name):
     global CUR
     sw = Swizzle(cls_name)
     cls = getattr(M, cls_name)
@@ -1000,6 +1040,9 @@ EXEC_PRELUDE = '''/-
              calle <fn> <int | n/d>*     ->  re <fn> <kind> <[~]rational>*   exact-domain run: a bare integer is a
                                              Python int, n/d a Fraction; `~` marks the entries Python returns as floats
              callf <fn> <float>*         ->  rf <fn>                (floats are tested on the Python side only)
+             obj <id> <token>*  ->  o <id> <n>          an operand object (a Python list) that lives across calls
+             set <id> <i> <token>  ->  o <id> set <i>   edited in place; `@id` among the arguments of a later call
+                                                       stands for its current values; `!v` = re-entrant number object v
              swz <Vec2|Vec3|Vec4> <attrs|-> <rational>*  ->  r swz <cls> <attrs> <kind> <rational>* | ... raised AttributeError
 -/
 import DesperModel.Proto
@@ -1098,7 +1141,10 @@ inductive Res where
 def showRat (q : Rat) : String :=
   if q.den = 1 then toString q.num else s!"{q.num}/{q.den}"
 
-def rat? (s : String) : Option Rat :=
+/-- `!v` is a user number object acting as `v` (the implementation side gives it arithmetic that
+    calls back into desper.math first); for the pure definitions it is the number `v` -/
+def rat? (s0 : String) : Option Rat :=
+  let s := if s0.startsWith "!" then (s0.drop 1).toString else s0
   match s.splitOn "/" with
   | [n] => (String.toInt? n).map fun (i : Int) => (i : Rat)
   | [n, d] =>
@@ -1128,11 +1174,33 @@ def translate(M):
     finally:
         restore()
 
+    # purity obligation: a single trace describes a function only if the function is pure
+    audit = math_purity.Audit(pathlib.Path(M.__file__).read_text(), M.__file__)
+    impure = audit.impure()
+
+    def reached_impure(codes):
+        out = {}
+        for name, line in sorted(codes):
+            f = audit.function_at(name, line)
+            if f is not None and f.qualname in impure:
+                out[f.qualname] = impure[f.qualname]
+        return out
+    for fn in fns:
+        fn.impure = reached_impure(fn.reached)
+    for sw in sws:
+        sw.impure = reached_impure(sw.reached)
+
     rel = os.path.relpath(M.__file__, os.path.dirname(os.path.dirname(M.__file__)))
     gen = [GEN_PRELUDE, f'-- source: {rel}\n']
     for fn in fns:
+        if fn.impure:
+            gen.append(f'-- PURITY OBLIGATION BROKEN for {fn.name}: the trace below is one call from a fresh state, but '
+                       f'{", ".join(fn.impure)} read / write state that outlives the call\n')
         gen.append(emit_generic(fn))
     for sw in sws:
+        if sw.impure:
+            gen.append(f'-- PURITY OBLIGATION BROKEN for {sw.cls}.swizzle: {", ".join(sw.impure)} read / write '
+                       f'state that outlives the call\n')
         gen.append(emit_swizzle(sw, 'K', '{K : Type} '))
     for c, why in sw_errors.items():
         gen.append(f'-- {c}.swizzle: not translated ({why})\n')
@@ -1166,6 +1234,17 @@ def translate(M):
         'paths': {f.name: sum(1 for _ in leaves(f.tree)) for f in fns
                   if f.tree is not None and isinstance(f.tree, If)},
         'preconditions': {f.name: len(f.pre) for f in fns if f.pre},
+        'purity': {
+            'functions_audited': len(audit.functions),
+            'state_objects': sorted(audit.key_text(k) for k in audit.state),
+            'impure_functions': impure,
+            'module_level_constants_never_written': audit.constants(),
+            # API entries whose trace ran an impure function (named = the property names the entry)
+            'broken': {**{f.name: sorted(f.impure) for f in fns if f.impure},
+                       **{sw.cls + '.swizzle': sorted(sw.impure) for sw in sws if sw.impure}},
+            'broken_named': sorted([f.name for f in fns if f.impure and f.entry.named] +
+                                   [sw.cls + '.swizzle' for sw in sws if sw.impure]),
+        },
         'float_contaminated': {f.name: float_contaminated(f) for f in fns
                                if f.value is not None and not f.is_tr and float_contaminated(f)},
         'float_for_int_arguments': {f.name: float_contaminated(f, True) for f in fns
@@ -1201,29 +1280,71 @@ def showSwz (cls attrs : String) : Swz Rat → String
   | .vec4 v => s!"r swz {cls} {attrs} v4 " ++ " ".intercalate ((v4Out v).map showRat)
   | .attributeError => s!"r swz {cls} {attrs} raised AttributeError"
 
-def step (line : String) : Option String :=
+/-- operand objects that live across the calls of one scenario (Python lists edited in place);
+    the definitions are pure, so a reference `@id` simply stands for the object's current tokens -/
+abbrev Store := List (String × Array String)
+
+def Store.get? (st : Store) (id : String) : Option (Array String) :=
+  (st.find? (fun e => e.1 = id)).map (·.2)
+
+def Store.put (st : Store) (id : String) (v : Array String) : Store :=
+  (id, v) :: st.filter (fun e => e.1 ≠ id)
+
+/-- replace every `@id` by the tokens of the object; `none` when an object is unknown -/
+def expand (st : Store) : List String → Option (List String)
+  | [] => some []
+  | t :: rest =>
+    match expand st rest with
+    | none => none
+    | some r =>
+      if t.startsWith "@" then
+        match st.get? (t.drop 1).toString with
+        | some v => some (v.toList ++ r)
+        | none => none
+      else some (t :: r)
+
+def step (st : Store) (line : String) : Option (Store × String) :=
   match Proto.tokens line with
-  | "callf" :: fn :: _ => some s!"rf {fn}"
+  | "callf" :: fn :: _ => some (st, s!"rf {fn}")
+  | "obj" :: id :: vals =>
+    if (vals.mapM rat?).isSome then some (st.put id vals.toArray, s!"o {id} {vals.length}") else none
+  | ["set", id, idx, v] =>
+    match st.get? id, idx.toNat?, rat? v with
+    | some a, some i, some _ =>
+      if i < a.size then some (st.put id (a.set! i v), s!"o {id} set {i}")
+      else some (st, s!"o {id} raised IndexError")
+    | none, some _, some _ => some (st, s!"o {id} raised UnknownObject")
+    | _, _, _ => none
   | "swz" :: cls :: attrs :: rest =>
     match rest.mapM rat? with
     | none => none
     | some args =>
       let l := if attrs = "-" then [] else attrs.toList
-      (swizzleOf cls l args.toArray).map (showSwz cls attrs)
-  | kind :: fn :: rest =>
+      (swizzleOf cls l args.toArray).map fun r => (st, showSwz cls attrs r)
+  | kind :: fn :: rest0 =>
     if kind ≠ "call" ∧ kind ≠ "callx" ∧ kind ≠ "calle" then none else
+    let tag := if kind = "call" then "r" else if kind = "callx" then "rx" else "re"
+    match expand st rest0 with
+    | none => some (st, s!"{tag} {fn} raised UnknownObject")
+    | some rest =>
     match rest.mapM rat?, table.find? (fun e => e.1 = fn) with
     | some args, some (_, n, f) =>
       -- argument tags of the exact-domain run: a bare integer is a Python int, `n/d` a Fraction
       let tags := rest.map fun s => !(s.contains '/')
-      let tag := if kind = "call" then "r" else if kind = "callx" then "rx" else "re"
-      if args.length = n then some (showRes tag fn (f args.toArray tags.toArray))
+      if args.length = n then some (st, showRes tag fn (f args.toArray tags.toArray))
       else none
     | _, _ => none
   | _ => none
 
+def runLines : Store → List String → Option (List String)
+  | _, [] => some []
+  | st, l :: rest =>
+    match step st l with
+    | none => none
+    | some (st', o) => (runLines st' rest).map (o :: ·)
+
 def runScenario (lines : List String) : List String :=
-  match lines.mapM step with
+  match runLines [] lines with
   | some out => out
   | none => ["bad-op"]
 
